@@ -344,7 +344,7 @@ def pyeq(ex, st, a, b):
             return a.t == b.t      # specifications compare floats by bit pattern (NaN == NaN)
         return eng.fop_bool("feq", a.t, b.t)
     if ta in scalars and tb in scalars:
-        if "float" in (ta, tb):
+        if "float" in (ta, tb) and ({ta, tb} & {"int", "bool"}):
             raise _unsupported("float/int equality")
         return z3.BoolVal(False)
     # containers / dynamically typed: structural equality is sufficient for ==;
